@@ -235,12 +235,26 @@ def r14_4(ctx, counts) -> RuleResult:
     cfg = CFG(f.node)
     facts = branch_facts(cfg)
     n = 0
+    from ..engine.dataflow import cond_facts
+    sites: list[tuple[ast.AST, frozenset]] = []
     for nd in cfg.nodes:
         a = nd.ast
         if nd.kind != 'stmt' or not isinstance(a, ast.AugAssign) or not isinstance(a.op, ast.Add):
             continue
+        fs0 = facts[nd.id]
+        # `flag = <condition>` in several branches, then `if flag: pos += 1`: every definition
+        # of the flag is an increment site guarded by its own branch facts and its condition
+        flags = [fa[1:] for fa in fs0 if fa.startswith('+') and fa[1:].isidentifier()]
+        defs = [q for q in cfg.nodes if q.kind == 'stmt' and isinstance(q.ast, ast.Assign)
+                and len(q.ast.targets) == 1 and isinstance(q.ast.targets[0], ast.Name)
+                and q.ast.targets[0].id in flags]
+        if defs:
+            for q in defs:
+                sites.append((q.ast, frozenset(facts[q.id]) | frozenset(cond_facts(q.ast.value, True))))
+        else:
+            sites.append((a, frozenset(fs0)))
+    for a, fs in sites:
         n += 1
-        fs = facts[nd.id]
         kind = any(fa.startswith(f'+isinstance({sib}, ') for fa in fs)
         named = f'+{sib}.name == {child}.name' in fs or f'+{child}.name == {sib}.name' in fs
         # kinds of `child` still possible at this increment
